@@ -198,9 +198,9 @@ class MemStateBackend(BaseStateBackend[Params, Result]):
         :param value: Value to store
         """
         workflow_id = workflow_identity.workflow_id
-        if workflow_id not in self._workflow_data:
-            self._workflow_data[workflow_id] = {}
-        self._workflow_data[workflow_id][key] = value
+        # setdefault is one atomic step: two invocations of a workflow that write their
+        # first records at the same time must not replace each other's mapping
+        self._workflow_data.setdefault(workflow_id, {})[key] = value
 
     def store_app_info(self, app_info: "AppInfo") -> None:
         """
